@@ -1,9 +1,9 @@
 SPECIFICATION Spec
 CONSTANTS
-  Nodes <- N3
+  Nodes <- N2
   Seeds <- S1
-  MaxStarts = 3
-  MaxFaults = 1
+  MaxStarts = 5
+  MaxFaults = 3
   StableIds = TRUE
   FD = FALSE
   MaxAge = 2
